@@ -628,6 +628,20 @@ func c16construct(c *vf.Ctx, r *vf.Rand, ctor string, msg *wire.MsgBlock, e *c16
 			c.Inc("reader=bytes.Reader")
 		}
 		h.call(ctor, func() { b, err = bchutil.NewBlockFromReader(rd) })
+		if r.Bool() {
+			// the reader and its storage belong to the caller, who goes on
+			// using them (a receive loop reusing one buffer per connection)
+			if bb, ok := rd.(*bytes.Buffer); ok {
+				bb.Reset()
+				for bb.Len() < len(own)+8 {
+					bb.Write([]byte{0xde, 0xad, 0xbe, 0xef, 0xfe, 0xed, 0xfa})
+				}
+			}
+			for j := range own {
+				own[j] ^= 0x5a
+			}
+			c.Inc("reader_storage_reused_after_construction")
+		}
 	case "NewBlockFromBlockAndBytes":
 		h.call(ctor, func() { b = bchutil.NewBlockFromBlockAndBytes(msg, own) })
 	}
@@ -862,7 +876,9 @@ func c16txNonCanonical(c *vf.Ctx) {
 	for _, ctor := range []string{"NewTxFromBytes", "NewTxFromReader"} {
 		var t *bchutil.Tx
 		var err error
-		desc := func() string { return fmt.Sprintf("ctor=%s bytes=%s (wire parses but does not reproduce these bytes)", ctor, short(hx(raw))) }
+		desc := func() string {
+			return fmt.Sprintf("ctor=%s bytes=%s (wire parses but does not reproduce these bytes)", ctor, short(hx(raw)))
+		}
 		if !c.Call(ctor, desc, func() {
 			if ctor == "NewTxFromBytes" {
 				t, err = bchutil.NewTxFromBytes(append([]byte{}, raw...))
@@ -963,6 +979,18 @@ func c16txCase(c *vf.Ctx, i int) {
 					rd = bytes.NewBuffer(own)
 				}
 				t, err = bchutil.NewTxFromReader(rd)
+				if r.Bool() {
+					// the reader's storage is the caller's and is reused
+					if bb, ok := rd.(*bytes.Buffer); ok {
+						bb.Reset()
+						for bb.Len() < len(own)+8 {
+							bb.Write([]byte{0xde, 0xad, 0xbe, 0xef, 0xfe, 0xed, 0xfa})
+						}
+					}
+					for j := range own {
+						own[j] ^= 0x5a
+					}
+				}
 			}
 		})
 		if !ok {
